@@ -242,6 +242,7 @@ func cmdCheck(args []string) int {
 	var obls []*Obligation
 	toolErrors := 0
 	var missing []string
+	var genFailed [][3]string
 	for _, j := range jobs {
 		if strings.HasPrefix(j.fn, "!missing:") {
 			missing = append(missing, strings.TrimPrefix(j.fn, "!missing:"))
@@ -251,6 +252,19 @@ func cmdCheck(args []string) int {
 		rep.Kind = j.kind
 		reps = append(reps, rep)
 		if rep.Status == "tool-error" {
+			nb := 0
+			for k := range inBaseline {
+				if strings.HasPrefix(k, j.fn+"::") {
+					nb++
+				}
+			}
+			if nb > 0 && !*writeBaseline {
+				// the contract can no longer be attached to (or generated from) this body: every obligation of
+				// this function that was discharged on the reference tree is no longer established
+				genFailed = append(genFailed, [3]string{j.fn, rep.Err, fmt.Sprint(nb)})
+				fmt.Printf("CONTRACT-NOT-APPLICABLE %s: %s\n", j.fn, rep.Err)
+				continue
+			}
 			toolErrors++
 			fmt.Printf("TOOL-ERROR %s: %s\n", j.fn, rep.Err)
 			continue
@@ -455,6 +469,12 @@ func cmdCheck(args []string) int {
 		} else {
 			fmt.Printf("KNOWN-FINDING-GONE: property=%s %s witness no longer fails\n", *prop, f.ID)
 		}
+	}
+	for _, g := range genFailed {
+		path := writeReplay(*prop, "contract:"+g[0], "the contract of "+g[0]+" cannot be generated from this tree's body: "+g[1]+
+			"\nThe "+g[2]+" contract clauses of this function that were discharged on the reference tree are no longer established (the code the contract describes - a loop, a local, a result - has changed shape); no counterexample is available.", "")
+		fmt.Printf("VIOLATION property=%s replay=%s no-failing-input-found\n", *prop, path)
+		violations++
 	}
 	if len(missing) > 0 {
 		for _, m := range missing {
